@@ -59,6 +59,9 @@ def main():
             if os.path.exists(os.path.join(demo, "run.sh")) and inpkg is None:
                 return sh("REPO=%s sh ./run.sh" % wt, cwd=demo)
             if inpkg is None:
+                has_tests = any(f.endswith("_test.go") for _, _, fs in os.walk(demo) for f in fs)
+                if not has_tests and os.path.exists(os.path.join(demo, "main.go")):
+                    return sh("go run .", cwd=demo)  # a program whose exit status is the verdict
                 return sh("go test -vet=off -count=1 ./...", cwd=demo)
             d, tests = inpkg
             for f in tests:
